@@ -652,6 +652,7 @@ def ridge_alias_twins(P, rep, rule="ALIAS.twins"):
     F = P.func("WorldBuilder::Utilities::calculate_ridge_distance_and_spreading")
     miss = astq.missing_anchors(P, F, ["c1", "c2", "c", "Pb1", "Pb2", "check_point", "other_check_point", "compare_distance", "compare_distance1", "compare_distance2",
                                        "spreading_velocity_at_ridge_pt", "subducting_velocity_at_trench_pt", "spreading_velocity_at_ridge_pt2", "subducting_velocity_at_trench_pt2",
+                                       "spreading_velocity_at_ridge_pt1", "subducting_velocity_at_trench_pt1", "compare_point1", "compare_point2",
                                        "result", "distance_ridge", "seconds_in_year", "spreading_velocity_at_ridge", "subducting_velocity_at_trench", "ridge_migration_time"])
     if miss:
         rep.unknown(rule, "calculate_ridge_distance_and_spreading: the locals %s this rule is written over no longer exist (renamed?)" % miss)
